@@ -563,12 +563,19 @@ Section ExportImportJson.
       else
         do p <- init_pnft_genesis unbech false pg;
         Ok (with_pnft (with_did (with_aol c a) d) p).
+  (** the whole application: x/authz InitGenesis (SDK) skips grants that expired before the import time and PANICS on a grant
+      that expires exactly then (SaveGrant requires expiration > block time) *)
+  Definition export_import_app (now : Z) (c : chain) : outcome chain :=
+    if existsb (fun g => match gr_exp g with Some t => (t =? now)%Z | None => false end) (c_grants c) then Panic
+    else export_import_json c.
 End ExportImportJson.
 
 (** ** blocks and histories *)
-(** x/authz BeginBlocker: grants whose expiration is not after the block time are removed *)
+(** x/authz BeginBlocker (DequeueAndDeleteExpiredGrants): grants whose expiration is BEFORE the block time are removed.
+    The queue scan ends at InclusiveEndBytes(prefix ++ time), which does not include the keys prefix ++ time ++ granter ...:
+    a grant expiring exactly at the block time stays (and is still usable) during that block *)
 Definition begin_block (e : env) (c : chain) : chain :=
-  with_grants c (filter (fun g => match gr_exp g with Some t => negb (t <=? e_now e)%Z | None => true end) (c_grants c)).
+  with_grants c (filter (fun g => match gr_exp g with Some t => negb (t <? e_now e)%Z | None => true end) (c_grants c)).
 
 (** x/burn EndBlock: move the spendable coins of the burn address to the burn module account and burn them
     there; any error is only logged.  bank.BurnCoins panics if the module account lacks the Burner permission
